@@ -181,13 +181,13 @@ class BaseSession(SessionInterface, Generic[MessageT]):
                 if dest_selected:
                     dest_selected.session_flags.add_recent(msg.uid)
                 uids.append(msg.uid)
+            updates = await self._load_updates(selected, mbx)
         except BaseException:
             if uids:
                 # all or nothing, see RFC 3502
                 await shield(mbx.delete(uids))
             raise
-        return (AppendUid(mbx.uid_validity, uids),
-                await self._load_updates(selected, mbx))
+        return AppendUid(mbx.uid_validity, uids), updates
 
     async def select_mailbox(self, name: str, readonly: bool = False) \
             -> tuple[MailboxSnapshot, SelectedMailbox]:
@@ -272,6 +272,7 @@ class BaseSession(SessionInterface, Generic[MessageT]):
                     if dest_selected:
                         dest_selected.session_flags.add_recent(dest_uid)
                     uids.append((source_uid, dest_uid))
+            updates = await mbx.update_selected(selected)
         except BaseException:
             if uids:
                 # restore the destination, see RFC 3501 6.4.7
@@ -281,7 +282,7 @@ class BaseSession(SessionInterface, Generic[MessageT]):
             copy_uid: CopyUid | None = None
         else:
             copy_uid = CopyUid(dest.uid_validity, uids)
-        return (copy_uid, await mbx.update_selected(selected))
+        return copy_uid, updates
 
     async def move_messages(self, selected: SelectedMailbox,
                             sequence_set: SequenceSet,
